@@ -83,7 +83,7 @@ var standingAssumptions = []string{
 	"A5: 64-bit integer arithmetic treated as mathematical; widths <= 32 bits exact",
 	"A6: range over a map visits each key of the current domain once",
 	"A7: interference by other goroutines is modelled for fields declared `guarded` (forgotten at method-call boundaries without the lock, at Cond.Wait and when a released lock is re-acquired; only rely conditions and monitor invariants survive); all other shared state is treated as stable within one function activation",
-	"A9: floating point treated as real arithmetic (time.Duration.Seconds() = d/1e9 exactly); time.Time values modelled by their Unix nanosecond count",
+	"A9: floating point: values handed out by the library are exact reals (time.Duration.Seconds() = d/1e9 exactly), every +,-,*,/ the verified code itself performs on floats is the real result up to one rounding (relative error <= 2^-52), comparisons and conversions are exact; time.Time values modelled by their Unix nanosecond count",
 }
 
 // Report prints the result lines, writes evidence and returns the exit code.
